@@ -24,11 +24,13 @@ def wbatch (j : Json) : R WBatch := do
 def parsed (j : Json) : R Parsed :=
   match j with
   | .str "bad" => pure .bad
+  | .str "other" => pure .other
   | _ => do
     let bs ← (← arrF j "batches").mapM wbatch
     let tail ← match ← field j "tail" with
       | .str "clean" => pure Tail.clean
       | .str "invalid" => pure Tail.invalid
+      | .str "other" => pure Tail.other
       | _ => throw "bad tail"
     pure (.stream (← natF j "schema") bs tail)
 
@@ -51,6 +53,7 @@ def rejectJson : Reject → Json
   | .noData => ofList [Json.str "noData"]
   | .multiple n => ofList [Json.str "multiple", ofNat n]
   | .schemaMismatch => ofList [Json.str "schemaMismatch"]
+  | .readError => ofList [Json.str "readError"]
   | .exhausted => ofList [Json.str "exhausted"]
 
 def wbatchJson (b : WBatch) : Json :=
